@@ -379,11 +379,13 @@ Definition c04_mismatch (k : kcase) : option nat :=
 Definition c05_failures (k : kcase) : list nat :=
   indexed_failures (fun o => forallb wf_msgb (o_midi o)) 0 (kc_obs k) ++
   (if forallb wf_msgb (kc_cleanup k) then [] else [length (kc_obs k)]).
+(* view: per step (and for the clean-up) "all messages well-formed?" - deliberately not the number of messages: on histories
+   that are not alternating the number of clean-up Note Offs depends on Go's map iteration order *)
 Definition c05_mismatch (k : kcase) : option nat :=
   let '(os, cl) := model_trace (kc_cfg k) (kc_events k) in
-  first_diff (fun a b : list bool => Nat.eqb (length a) (length a) && forallb (fun x => x) (map2 Bool.eqb a b) && Nat.eqb (length a) (length b)) 0
-             (map (fun o => map wf_msgb (o_midi o)) os ++ [map wf_msgb cl])
-             (map (fun o => map wf_msgb (o_midi o)) (kc_obs k) ++ [map wf_msgb (kc_cleanup k)]).
+  first_diff Bool.eqb 0
+             (map (fun o => forallb wf_msgb (o_midi o)) os ++ [forallb wf_msgb cl])
+             (map (fun o => forallb wf_msgb (o_midi o)) (kc_obs k) ++ [forallb wf_msgb (kc_cleanup k)]).
 
 (* ---------------------------------------------------------------------- C13 *)
 Definition panic_triggers_ctx (c : config) (w : wctx) (e : ev) : bool :=
